@@ -262,7 +262,9 @@ func runExtract(seed int64, tier, out string, shards, only int) {
 			}
 			w.writeID(ev, id)
 			// maps extracted from this witness suffice for other values of the type
-			if t.Kind() == reflect.Struct || t.Kind() == reflect.Slice || t.Kind() == reflect.Map {
+			// (only when the worker survived the extraction: this process must not die of it)
+			okEv := ev["crash"] == 0 && fmt.Sprint(ev["hang"]) == "0" && fmt.Sprint(ev["panic"]) == "0"
+			if okEv && (t.Kind() == reflect.Struct || t.Kind() == reflect.Slice || t.Kind() == reflect.Map) {
 				var tm map[string]reflect.Type
 				var nm map[string]string
 				if _, p := drv.Call(func() { tm, nm = hessian.ExtractTypeNameMap(ws[wi]) }); p || tm == nil {
